@@ -37,6 +37,9 @@ struct Scn {
     retries: usize,
     rwnd: [u32; 2],
     reqs: Vec<Req>,
+    /// number of tasks of each accepting side that wait in `accept_stream_channel` at the same time; with more than
+    /// one, every task takes exactly one stream
+    acceptors: usize,
 }
 
 fn opener_plan() -> EndPlan {
@@ -49,8 +52,9 @@ fn acceptor_plan() -> EndPlan {
 fn scenarios(thorough: bool) -> Vec<Scn> {
     let h255: Vec<u8> = (0..255u32).map(|i| 0x80 | (i as u8 & 0x7f)).collect();
     let mut v = vec![
-        Scn { name: "first draw is 0", rng: [vec![0, 1], vec![]], retries: 3, rwnd: [2, 3], reqs: vec![Req { tag: 1, side: 0, host: b"a".to_vec(), port: 1 }] },
+        Scn { acceptors: 1, name: "first draw is 0", rng: [vec![0, 1], vec![]], retries: 3, rwnd: [2, 3], reqs: vec![Req { tag: 1, side: 0, host: b"a".to_vec(), port: 1 }] },
         Scn {
+            acceptors: 1,
             name: "draw equal to a live flow (two concurrent opens on A, one on B)",
             rng: [vec![1, 1, 2, 0, 3], vec![1, 2, 4]],
             retries: 3,
@@ -62,6 +66,7 @@ fn scenarios(thorough: bool) -> Vec<Scn> {
             ],
         },
         Scn {
+            acceptors: 1,
             name: "hosts and ports",
             rng: [vec![], vec![]],
             retries: 3,
@@ -75,6 +80,7 @@ fn scenarios(thorough: bool) -> Vec<Scn> {
     ];
     for retries in if thorough { vec![1usize, 2, 3] } else { vec![1usize, 3] } {
         v.push(Scn {
+            acceptors: 1,
             name: "both sides open at the same moment with the same id",
             rng: [vec![1, 2, 5], vec![1, 3, 6]],
             retries,
@@ -82,6 +88,7 @@ fn scenarios(thorough: bool) -> Vec<Scn> {
             reqs: vec![Req { tag: 1, side: 0, host: b"A".to_vec(), port: 10 }, Req { tag: 2, side: 1, host: b"B".to_vec(), port: 20 }],
         });
         v.push(Scn {
+            acceptors: 1,
             name: "same id twice in a row on both sides",
             rng: [vec![1, 2, 5], vec![1, 2, 6]],
             retries,
@@ -89,8 +96,21 @@ fn scenarios(thorough: bool) -> Vec<Scn> {
             reqs: vec![Req { tag: 1, side: 0, host: b"A".to_vec(), port: 10 }, Req { tag: 2, side: 1, host: b"B".to_vec(), port: 20 }],
         });
     }
+    // the accepting application has several tasks waiting for streams (a worker pool): every stream that comes up
+    // still has to reach one of them
+    for n in if thorough { vec![2usize, 3] } else { vec![2usize] } {
+        v.push(Scn {
+            acceptors: n,
+            name: if n == 2 { "two tasks waiting in accept_stream_channel, the peer opens two streams" } else { "three tasks waiting in accept_stream_channel, the peer opens three streams" },
+            rng: [vec![], vec![]],
+            retries: 3,
+            rwnd: [2, 2],
+            reqs: (0..n).map(|i| Req { tag: i as u8 + 1, side: 0, host: vec![b'P', i as u8], port: 100 + i as u16 }).collect(),
+        });
+    }
     if thorough {
         v.push(Scn {
+            acceptors: 1,
             name: "two opens per side, colliding ids",
             rng: [vec![1, 2, 1, 3, 7], vec![2, 1, 4, 5, 8]],
             retries: 2,
@@ -114,7 +134,13 @@ fn exec_two(sc: &Scn, render: bool) -> RunOutput {
         let table: BTreeMap<(Vec<u8>, u16), (Tag, EndPlan)> = sc.reqs.iter().filter(|r| r.side != side).map(|r| ((r.host.clone(), r.port), (r.tag, acceptor_plan()))).collect();
         if !table.is_empty() {
             // accept as many as could possibly arrive; it is fine if fewer do (rejected requests)
-            w.spawn_acceptor_by(side, usize::MAX, table);
+            if sc.acceptors <= 1 {
+                w.spawn_acceptor_by(side, usize::MAX, table);
+            } else {
+                for k in 0..sc.acceptors {
+                    w.spawn_acceptor_by_named(side, &format!("{}", k + 1), 1, table.clone());
+                }
+            }
         }
     }
     for r in &sc.reqs {
@@ -522,7 +548,7 @@ pub fn run(args: &Args) -> Report {
             if with_b {
                 reqs.push(Req { tag: 3, side: 1, host: b"B".to_vec(), port: 3 });
             }
-            let sc = Scn { name: "enumerated draws", rng: [script.clone(), vec![1, 2]], retries: 3, rwnd: [2, 2], reqs };
+            let sc = Scn { acceptors: 1, name: "enumerated draws", rng: [script.clone(), vec![1, 2]], retries: 3, rwnd: [2, 2], reqs };
             let label = format!("{} | retries=3 rngA={:?} rngB=[1, 2] requests={}", sc.name, sc.rng[0], sc.reqs.len());
             cases.push(Case { try_unbounded: false, max_k: if thorough { 2 } else { 1 }, label, exec: Box::new(move |r| exec_two(&sc, r)) });
         }
